@@ -687,6 +687,10 @@ func runC14(r *Run) {
 			`cmp(<result>.NumberOfOperations == strconv.Atoi(strings.Split($0, ".")[0]))`, `cmp(<result>.CoreIndexFileURI == strings.Split($0, ".")[1])`)
 	}
 
+	if r.Universal {
+		r.universalE6(P)
+		r.universalParamsLive(P, sinks)
+	}
 	r.checkNoPanic(P, map[string]*ssa.Function{"OperationProvider.GetTxnOperations": entry}, 40)
 }
 
@@ -851,4 +855,39 @@ func (r *Run) chunkURIConditional(P string) bool {
 		[]string{"cmp(len($1.Chunks) <= 0)"},
 		[]string{"ok(validateURI(_, $1.Chunks[0].ChunkFileURI))"})
 	return r.chunkCondOK
+}
+
+// universalE6: module-wide form of the early-success rule (thorough tier):
+// every error-only subject function with a loop.
+func (r *Run) universalE6(P string) {
+	n := 0
+	for _, f := range r.P.SubjectFuncs() {
+		if f.Parent() != nil || !errResultOnly(f) || len(allLoopHeads(f)) == 0 {
+			continue
+		}
+		n++
+		r.checkNoEarlySuccess(P+".universal.noearly."+core.FuncName(f), f, "a success return inside a loop of an error-returning function skips the remaining elements")
+	}
+	r.R.Floor(P+".universal.noearly.floor", "instance floor", n, 20, "error-only subject functions with loops (module-wide)")
+}
+
+// universalParamsLive: every field of protocol.Protocol has at least one
+// non-message sink in subject code (thorough tier).
+func (r *Run) universalParamsLive(P string, sinks map[string][]sink) {
+	_, fields := r.protocolStruct()
+	var names []string
+	for _, n := range fields {
+		names = append(names, n)
+	}
+	sort.Strings(names)
+	for _, n := range names {
+		live := 0
+		for _, s := range sinks[n] {
+			if s.Kind != "message" {
+				live++
+			}
+		}
+		r.R.Check(live > 0, P+".universal.param.live."+n, "E3 (universal): every protocol parameter governs something — it has a non-message sink in subject code", "Protocol."+n, "pkg/api/protocol/protocol.go",
+			"a parameter that is never read cannot enforce its limit", fmt.Sprintf("%d sink(s)", live), "never read outside messages")
+	}
 }
